@@ -87,6 +87,7 @@ func (fx *FX) runTop() (errmsg string) {
 	w := e.W
 	activeLogs = nil
 	fr := &frame{fx: fx, fn: fn, vals: map[ssa.Value]Val{}, c: c, top: true, cellClo: map[*ssa.Alloc]*Closure{}}
+	fx.topFrame = fr
 	st := &State{reach: True, cells: map[*ssa.Alloc]Term{}, comps: map[string]Term{}, epoch: "e0"}
 	if c != nil {
 		for _, ax := range c.Uses {
